@@ -58,7 +58,9 @@ Known(t) ==
     ELSE IF KF_MixedWidthGroup(a) THEN "known:F24:producers of different widths (conv->flatten and linear) meet in one residual add and share one masker"
     ELSE ""
 
-Fail(t, clause) == IF Known(t) # "" THEN Known(t) ELSE clause
+\* (a clause that already carries the signature of a finding of its own, e.g. F26, keeps it)
+Fail(t, clause) == IF Len(clause) >= 6 /\ SubSeq(clause, 1, 6) = "known:" THEN clause
+                   ELSE IF Known(t) # "" THEN Known(t) ELSE clause
 
 (* ----------------------------- per call site --------------------------- *)
 C09Layer(t, n) ==
